@@ -83,6 +83,8 @@ def run(res, b, tier, seed):
     cases = []   # (kind, src, expected or None, expect_error)
     for name, src, exp, err in load_corpus():
         cases.append(("corpus:" + name, src, exp, err))
+    for src, exp in gen_lex.directed_sequences():
+        cases.append(("directed", src, exp, False))
     for _ in range(nseq):
         src, exp = gen_lex.gen_sequence(rng, rng.choice([3, 8, maxtok]))
         cases.append(("seq", src, exp, False))
